@@ -123,6 +123,15 @@ def cases(rng, tier):
                 for q0 in itertools.product(range(3), repeat=m):
                     for q1 in itertools.product(range(3), repeat=n):
                         out.append(_mk_case(rng, m, n, list(q0), list(q1), tag='enum012'))
+    # magnitude regimes: power-of-two multiples (exact) of a sample of the cases above
+    for c in rng.sample(out, min(len(out), {'quick': 60, 'thorough': 300, 'search': 60}[tier])):
+        k = rng.choice([-60, -40, -30, -27, 30])
+        f = 2.0 ** k
+        c2 = dict(c)
+        c2['A'] = [[[re * f, im * f] for re, im in row] for row in c['A']]
+        c2['dtype_int'] = bool(c['dtype_int'] and k > 0)
+        c2['tag'] = c['tag'] + '/x2^%d' % k
+        out.append(c2)
     # malformed stream: wrong lengths, non-sparse A
     n_bad = {'quick': 24, 'thorough': 60, 'search': 0}[tier]
     for k in range(n_bad):
@@ -190,7 +199,7 @@ def prop(case, r):
     D = len(qi)
     if r.get('qi_kind', 'i') not in 'iu':
         msgs.append('intermediate quantum numbers are not integers (dtype kind %r): large charges are rounded' % r['qi_kind'])
-    sc = 1.0 + float(np.abs(A).max()) if A.size else 1.0
+    sc = (float(np.abs(A).max()) or 1.0) if A.size else 1.0      # relative: magnitudes vary
     if np.abs(Q @ R - A).max(initial=0.0) > 1e-10 * sc:
         msgs.append('Q R differs from A by %.3g' % np.abs(Q @ R - A).max())
     if np.abs(Q.conj().T @ Q - np.eye(D)).max(initial=0.0) > 1e-10:
